@@ -16,6 +16,8 @@
 //!     <k>f   release the next frame travelling dialler -> acceptor on connection k
 //!     <k>b   release the next frame travelling acceptor -> dialler
 //!     <k>n <k>c <k>a   legacy connection k: send Name | answer Status+Challenge | take the Ack and send Ready
+//!     X<k>   connection k is CUT now (at a frame boundary: whatever was not yet released is lost, both
+//!            ends see the stream end / a write error)
 //!     S<k>   connection k is stalled: excluded from `F` until `U`; `Z<k>`: stalled for good
 //!     F      every connection that is not stalled runs freely; wait for quiescence; snapshot
 //!     U      no connection is stalled any more (everything runs freely); quiescence; snapshot
@@ -55,6 +57,13 @@ fn infra(msg: impl AsRef<str>) -> ! {
     std::process::exit(2)
 }
 
+/// The code under test wedged or broke the run: an OBSERVATION (`stuck "<why>"`, the rest of the batch
+/// `skipped`), not an infrastructure problem. `infra` is left for malformed scenarios and the like.
+struct Stuck(String);
+fn stuck(msg: impl AsRef<str>) -> ! {
+    std::panic::panic_any(Stuck(msg.as_ref().to_string()))
+}
+
 fn u(s: &str) -> u64 {
     s.parse().unwrap_or_else(|_| infra(format!("bad number {s:?}")))
 }
@@ -81,6 +90,7 @@ struct LinkState {
     dirs: [DirState; 2], // 0: dialler -> acceptor (read by the acceptor), 1: acceptor -> dialler
     // [end][half]: end 0 = dialler, 1 = acceptor; half 0 = read, 1 = write
     dropped: [[bool; 2]; 2],
+    cut: bool,
 }
 
 type Link = Arc<Mutex<LinkState>>;
@@ -126,6 +136,9 @@ impl Drop for GatedRead {
 impl AsyncRead for GatedRead {
     fn poll_read(mut self: Pin<&mut Self>, cx: &mut Context<'_>, buf: &mut ReadBuf<'_>) -> Poll<io::Result<()>> {
         let this = &mut *self;
+        if this.link.lock().unwrap().cut {
+            return Poll::Ready(Ok(())); // the connection is gone: end of stream
+        }
         // 1. take whatever the pipe has
         loop {
             let mut tmp = [0u8; 4096];
@@ -186,8 +199,13 @@ impl AsyncRead for GatedRead {
             buf.put_slice(&chunk);
             return Poll::Ready(Ok(()));
         }
-        if d.eof && d.complete.is_empty() {
-            // the writer is gone; an incomplete tail is dropped like a truncated frame
+        if d.eof && d.complete.is_empty() && (d.free || d.credits > 0) {
+            // the writer is gone; an incomplete tail is dropped like a truncated frame. The end of the
+            // stream is released like a frame (a FIN may arrive any time after the data), so that the
+            // frames a stopping session managed to flush are handled before its close is noticed
+            if !d.free {
+                d.credits -= 1;
+            }
             return Poll::Ready(Ok(()));
         }
         d.waker = Some(cx.waker().clone());
@@ -209,6 +227,9 @@ impl Drop for GatedWrite {
 
 impl AsyncWrite for GatedWrite {
     fn poll_write(mut self: Pin<&mut Self>, cx: &mut Context<'_>, buf: &[u8]) -> Poll<io::Result<usize>> {
+        if self.link.lock().unwrap().cut {
+            return Poll::Ready(Err(io::Error::new(io::ErrorKind::BrokenPipe, "link cut")));
+        }
         Pin::new(&mut self.inner).poll_write(cx, buf)
     }
     fn poll_flush(mut self: Pin<&mut Self>, cx: &mut Context<'_>) -> Poll<io::Result<()>> {
@@ -469,7 +490,7 @@ const LEGACY: usize = 99;
 async fn sessions_of(n: &ActorRef<NodeServerMessage>) -> HashMap<u64, NodeServerSessionInformation> {
     match ractor::call_t!(n, NodeServerMessage::GetSessions, 1000) {
         Ok(m) => m,
-        Err(e) => infra(format!("GetSessions failed: {e}")),
+        Err(e) => stuck(format!("GetSessions failed: {e}")),
     }
 }
 
@@ -532,12 +553,12 @@ async fn quiesce(nodes: &[ActorRef<NodeServerMessage>], conns: &[Conn], events: 
             last = s;
         }
     }
-    infra("no quiescence within 2 virtual seconds")
+    stuck("no quiescence within 2 virtual seconds: the nodes keep changing state")
 }
 
 async fn join_bounded(what: &str, h: JoinHandle<()>) {
     if tokio::time::timeout(Duration::from_secs(10), h).await.is_err() {
-        infra(format!("{what} did not stop within 10 virtual s"));
+        stuck(format!("{what} did not stop within 10 virtual s"));
     }
 }
 
@@ -617,12 +638,12 @@ async fn run_case(line: String) -> String {
             (),
         )
         .await
-        .unwrap_or_else(|e| infra(format!("node {i} does not start: {e}")));
+        .unwrap_or_else(|e| stuck(format!("node {i} does not start: {e}")));
         n.cast(NodeServerMessage::SubscribeToEvents {
             id: "h".to_string(),
             subscription: Box::new(Sub { node: i, events: events.clone() }),
         })
-        .unwrap_or_else(|e| infra(format!("subscribe: {e}")));
+        .unwrap_or_else(|e| stuck(format!("subscribe: {e}")));
         let _ = sessions_of(&n).await; // mailbox barrier (subscription, listener port)
         nodes.push(n);
         handles.push(h);
@@ -643,13 +664,21 @@ async fn run_case(line: String) -> String {
                 // the dialling side goes through the public helper for external transports
                 ractor_cluster::client_connect_external(&nodes[c.dial], Box::new(d))
                     .await
-                    .unwrap_or_else(|e| infra(format!("open: {e}")));
+                    .unwrap_or_else(|e| stuck(format!("open: {e}")));
             }
             nodes[c.acc]
                 .cast(NodeServerMessage::ConnectionOpenedExternal { stream: Box::new(a), is_server: true })
-                .unwrap_or_else(|e| infra(format!("open: {e}")));
+                .unwrap_or_else(|e| stuck(format!("open: {e}")));
         } else if let Some(k) = t.strip_prefix('S') {
             conns[u(k) as usize].stalled = true;
+        } else if let Some(k) = t.strip_prefix('X') {
+            let mut l = conns[u(k) as usize].link.lock().unwrap();
+            l.cut = true;
+            for d in 0..2 {
+                if let Some(w) = l.dirs[d].waker.take() {
+                    w.wake();
+                }
+            }
         } else if let Some(k) = t.strip_prefix('Z') {
             conns[u(k) as usize].stalled = true;
             conns[u(k) as usize].forever = true;
@@ -709,7 +738,7 @@ async fn run_case(line: String) -> String {
             (Some(n), _) => n,
             (None, Some(lg)) => lg.nonce,
             (None, None) if !c.opened => 0,
-            (None, None) => infra(format!("connection {k}: no Name frame seen on the wire")),
+            (None, None) => stuck(format!("connection {k}: no Name frame seen on the wire")),
         };
         cs.push(format!("({}, {}, {}, {})", k, c.dial, c.acc, nonce));
     }
@@ -789,7 +818,7 @@ async fn run_tcp(line: String) -> String {
         }
         let (x, y) = ((b[1] - b'0') as usize, (b[2] - b'0') as usize);
         if let Err(e) = ractor_cluster::client_connect(&nodes[x], format!("127.0.0.1:{}", ports[y])).await {
-            infra(format!("tcp connect {x}->{y} failed: {e}"));
+            stuck(format!("tcp connect {x}->{y} failed: {e}"));
         }
     }
     // wait for the logical end state (bounded in real time; a miss is an infrastructure verdict because
@@ -883,7 +912,9 @@ fn main() {
         PANICKED.store(true, Ordering::SeqCst);
         default_hook(info);
     }));
-    for (case, line) in stdin_lines().into_iter().enumerate() {
+    let lines = stdin_lines();
+    let total = lines.len();
+    for (case, line) in lines.into_iter().enumerate() {
         let is_tcp = line.starts_with("tcp ");
         let rt = tokio::runtime::Builder::new_current_thread()
             .enable_all()
@@ -898,13 +929,26 @@ fn main() {
             }
         }));
         let out = match res {
-            Ok(o) => o,
-            Err(_) => infra(format!("driver panicked in case {case}: {line}")),
+            Ok(o) if !PANICKED.load(Ordering::SeqCst) => o,
+            Ok(_) => "stuck \"a panic occurred in some task during the case\"".to_string(),
+            Err(p) => match p.downcast_ref::<Stuck>() {
+                Some(s) => format!("stuck \"{}\"", s.0.replace('"', "'")),
+                None => "stuck \"the driver panicked\"".to_string(),
+            },
         };
-        drop(rt);
-        if PANICKED.load(Ordering::SeqCst) {
-            infra(format!("a panic occurred somewhere during case {case}: {line}"));
+        let bad = out.starts_with("stuck");
+        if bad {
+            std::mem::forget(rt);
+        } else {
+            drop(rt);
         }
         println!("{out}");
+        if bad {
+            // the process-global registries are not trustworthy any more: the rest is not evaluated
+            for _ in case + 1..total {
+                println!("skipped");
+            }
+            std::process::exit(0);
+        }
     }
 }
